@@ -2,9 +2,12 @@ package worldp
 
 import (
 	"bufio"
+	"bytes"
 	"encoding/hex"
 	"fmt"
 	"io"
+	"os"
+	"path/filepath"
 	"sort"
 	"strings"
 	"time"
@@ -111,6 +114,8 @@ func runC15(r *core.Run) {
 	}
 	scratch := Scratch(r)
 	vcs := seams.NewSimVCS(r, "/release")
+	// the repository may keep the very slices it is handed (see C13)
+	vcs.Retain = r.Chance(40, "retaining-back-end?")
 	pool := images.Pool()
 	img := pool[r.Intn(4, "image")]
 	if r.Chance(25, "tdx-image?") {
@@ -210,8 +215,28 @@ func runC15(r *core.Run) {
 			q.Retries = 2
 		}
 	}
+	if !q.ViaCLI && !q.MeasurementOnly {
+		q.Verbosity = r.Intn(3, "verbosity")
+	}
 	calls0 := len(vcs.Calls)
 	head0 := vcs.HeadRev
+	// what the repository holds, byte for byte, and what lies in the temporary directory: a run that
+	// commits nothing changes neither
+	bytes0 := map[string][]byte{}
+	for p, b := range vcs.Head {
+		bytes0[p] = append([]byte(nil), b...)
+	}
+	tmpWatch := filepath.Join(scratch, "tmpdir")
+	os.MkdirAll(tmpWatch, 0o755)
+	oldTmp, hadTmp := os.LookupEnv("TMPDIR")
+	os.Setenv("TMPDIR", tmpWatch)
+	restoreTmp := func() {
+		if hadTmp {
+			os.Setenv("TMPDIR", oldTmp)
+		} else {
+			os.Unsetenv("TMPDIR")
+		}
+	}
 	a.Decorate = true
 	plan.Active = true
 	plan.N, plan.Sites = 0, nil
@@ -230,6 +255,13 @@ func runC15(r *core.Run) {
 	}
 	plan.Active = false
 	a.Decorate = false
+	restoreTmp()
+	var strays []string
+	if es, rerr := os.ReadDir(tmpWatch); rerr == nil {
+		for _, e := range es {
+			strays = append(strays, e.Name())
+		}
+	}
 	cfgKey := fmt.Sprintf("dry=%v mo=%v snp=%v tdx=%v snap=%v cand=%q ow=%v vmsas=%d genoa=%v shapes=%d ea=%v cli=%v tdximg=%v", q.DryRun, q.MeasurementOnly, q.SNP, q.TDX, q.SnapshotDir != "", q.Candidate, q.Overwrite, q.LaunchVmsas, q.Genoa, len(q.Shapes), q.EarlyAccept, q.ViaCLI, img.TDX)
 	r.Eval(cfgKey, true)
 	r.State(fmt.Sprintf("dry=%v mo=%v snap=%v", q.DryRun, q.MeasurementOnly, q.SnapshotDir != ""))
@@ -259,6 +291,14 @@ func runC15(r *core.Run) {
 			names = append(names, c.Name)
 		}
 		r.Fail("dry-run-side-effect", mk, "%s: %d version-control calls were made (%v), head moved %d -> %d", q, n, names, head0, vcs.HeadRev)
+	}
+	for _, p := range core.SortedKeys(bytes0) {
+		if now, ok := vcs.Head[p]; !ok || !bytes.Equal(now, bytes0[p]) {
+			r.Fail("dry-run-side-effect", "committed-bytes-changed/"+mk, "%s: the run made no version-control call, yet the committed file %s no longer holds the bytes it held before the run", q, p)
+		}
+	}
+	if len(strays) != 0 {
+		r.Fail("dry-run-side-effect", "file-in-tmpdir/"+mk, "%s: the run left %d file(s) in the temporary directory (%v): a run that writes no file writes none there either", q, len(strays), strays)
 	}
 	if q.MeasurementOnly {
 		if plan.N != 0 {
